@@ -67,9 +67,12 @@ def r1_verify_before_replace(rep, src):
         raise AnalysisError('%s: expected exactly one replace_file call, found %d' % (f.site, len(reps)))
     rn, rc = reps[0]
     p = f.params()
-    if [norm(a) for a in rc.args][:2] != ['lines', p[1]]:
-        rep.fail('C19.R1', f.site, 'replace_file arguments', 'replace_file is called with %s, not (lines, %s)' % (norm(rc), p[1]),
+    if len(rc.args) < 2 or not isinstance(rc.args[0], ast.Name) or norm(rc.args[1]) != p[1]:
+        rep.fail('C19.R1', f.site, 'replace_file arguments', 'replace_file is called with %s, not (<patched lines>, %s)' % (norm(rc), p[1]),
                  where='%s:%d' % (f.module.relpath, rc.lineno))
+        return g
+    content = rc.args[0].id          # role: the list of lines that is patched and written
+    hashfns = _hash_functions(src, f)
     # --- result-hash guard
     tests = [n for n in g.nodes if n.kind == 'test']
 
@@ -80,11 +83,23 @@ def r1_verify_before_replace(rep, src):
                 return lab
         return None
     final = []
+    def hash_of(e):
+        """(node that computes it, hashed argument) when e is H(x) for a hash function H, directly or through a local bound once"""
+        if isinstance(e, ast.Call) and norm(e.func) in hashfns and len(e.args) == 1:
+            return e
+        return None
+    single_defs = {}
+    for n in g.stmts():
+        if n.kind == 'stmt' and isinstance(n.ast, ast.Assign) and len(n.ast.targets) == 1 and isinstance(n.ast.targets[0], ast.Name):
+            single_defs.setdefault(n.ast.targets[0].id, []).append(n)
     for t in tests:
-        if isinstance(t.ast, ast.Compare) and len(t.ast.ops) == 1 and isinstance(t.ast.ops[0], (ast.NotEq, ast.Eq)) \
-                and 'remote_hash' in (norm(t.ast.left), norm(t.ast.comparators[0])) and raise_side(t) is not None:
-            other = t.ast.comparators[0] if norm(t.ast.left) == 'remote_hash' else t.ast.left
-            final.append((t, other))
+        if isinstance(t.ast, ast.Compare) and len(t.ast.ops) == 1 and isinstance(t.ast.ops[0], (ast.NotEq, ast.Eq)) and raise_side(t) is not None:
+            for side in (t.ast.left, t.ast.comparators[0]):
+                hc = hash_of(side)
+                if hc is None and isinstance(side, ast.Name) and len(single_defs.get(side.id, [])) == 1:
+                    hc = hash_of(single_defs[side.id][0].ast.value)
+                if hc is not None and norm(hc.args[0]) == content:
+                    final.append((t, side))
     ok = False
     why = 'no comparison of the patched result with the published hash guards replace_file'
     for t, other in final:
@@ -106,13 +121,12 @@ def r1_verify_before_replace(rep, src):
                 hcall = defs[0].ast.value
         elif isinstance(other, ast.Call):
             hv, hcall = t, other
-        if hv is None or not (isinstance(hcall, ast.Call) and [norm(a) for a in hcall.args] == ['lines']
-                              and norm(hcall.func) in ('read_lines', 'read_lines_sha1', 'read_lines_sha256')):
+        if hv is None or not (isinstance(hcall, ast.Call) and [norm(a) for a in hcall.args] == [content] and norm(hcall.func) in hashfns):
             why = 'the value compared with remote_hash is not the hash of the patched lines'
             continue
         muts = [n for n, c in _calls(g, 'patch_lines')] + \
                [n for n in g.stmts() if n.kind == 'stmt' and isinstance(n.ast, (ast.Assign, ast.AugAssign))
-                and any(norm(x) == 'lines' or (isinstance(x, ast.Subscript) and norm(x.value) == 'lines')
+                and any(norm(x) == content or (isinstance(x, ast.Subscript) and norm(x.value) == content)
                         for x in (n.ast.targets if isinstance(n.ast, ast.Assign) else [n.ast.target]))]
         late = [m for m in muts if g.exists_path(hv.id, m.id) and g.exists_path(m.id, rn.id)]
         if late:
@@ -133,9 +147,11 @@ def r1_verify_before_replace(rep, src):
         raise AnalysisError('%s: expected exactly one patch_lines call' % f.site)
     pn, pc = pls[0]
     guard = None
+    ploop = _enclosing_loop(pn)
     for t in tests:
-        if isinstance(t.ast, ast.Compare) and len(t.ast.ops) == 1 and isinstance(t.ast.ops[0], (ast.NotEq, ast.Eq)) \
-                and 'patch_hashes' in norm(t.ast) and raise_side(t) is not None:
+        if isinstance(t.ast, ast.Compare) and len(t.ast.ops) == 1 and isinstance(t.ast.ops[0], (ast.NotEq, ast.Eq)) and raise_side(t) is not None \
+                and ploop is not None and any(x is t.ast for x in ast.walk(ploop)) \
+                and any(hash_of(s_) is not None for s_ in (t.ast.left, t.ast.comparators[0])):
             guard = t
     okp = False
     whyp = 'no comparison of the downloaded patch with its hash in the index guards patch_lines'
@@ -143,8 +159,8 @@ def r1_verify_before_replace(rep, src):
         rs = raise_side(guard)
         neq = isinstance(guard.ast.ops[0], ast.NotEq)
         sides = [guard.ast.left, guard.ast.comparators[0]]
-        hashed = [s for s in sides if isinstance(s, ast.Call) and norm(s.func) in ('read_lines', 'read_lines_sha1', 'read_lines_sha256')]
-        entry = [s for s in sides if isinstance(s, ast.Subscript) and norm(s.value) == 'patch_hashes']
+        hashed = [s for s in sides if hash_of(s) is not None]
+        entry = [s for s in sides if isinstance(s, ast.Subscript) and isinstance(s.value, ast.Name)]
         if (neq and rs is not True) or (not neq and rs is not False):
             whyp = 'the patch-hash comparison raises on the wrong outcome'
         elif not g.dominates(guard.id, pn.id) or g.exists_path([d for d, l in g.succ[guard.id] if l == rs][0], pn.id, avoid=[guard.id]) and False:
@@ -157,7 +173,10 @@ def r1_verify_before_replace(rep, src):
             applied = None
             for c in ast.walk(pc):
                 if _is_call(c, 'patches_from_ed_script') and c.args:
-                    applied = norm(c.args[0])
+                    a_ = c.args[0]
+                    while isinstance(a_, ast.Call) and norm(a_.func) in ('list', 'tuple', 'iter') and len(a_.args) == 1:
+                        a_ = a_.args[0]      # a copy of the hashed data is the same data
+                    applied = norm(a_)
             derived = {hv}
             for n in g.stmts():
                 if n.kind == 'stmt' and isinstance(n.ast, ast.Assign) and isinstance(n.ast.targets[0], ast.Name):
@@ -176,7 +195,8 @@ def r1_verify_before_replace(rep, src):
     else:
         rep.fail('C19.R1', f.site, 'patch hash checked before applying', whyp, where='%s:%d' % (f.module.relpath, pc.lineno))
     # --- the patch loop is not empty on the path to replace_file
-    empt = [t for t in tests if norm(t.ast) in ('not patches_to_apply', 'len(patches_to_apply) == 0', 'patches_to_apply == []')]
+    todo = norm(ploop.iter) if ploop is not None else None     # role: the list of patches to apply
+    empt = [t for t in tests if todo is not None and norm(t.ast) in ('not %s' % todo, 'len(%s) == 0' % todo, '%s == []' % todo, 'not len(%s)' % todo, 'len(%s) < 1' % todo)]
     ok3 = False
     for t in empt:
         succs = [d for d, lab in g.succ[t.id] if lab is True]
@@ -187,8 +207,54 @@ def r1_verify_before_replace(rep, src):
     else:
         rep.fail('C19.R1', f.site, 'no replace without patches', 'replace_file can be reached with nothing to apply (unknown local version not sent to a full download)',
                  where='%s:%d' % (f.module.relpath, rc.lineno))
+    # --- the lines handed back are the lines that were verified and written
+    rets = [n for n in g.nodes if n.kind == 'return' and n.ast is not None and g.exists_path(rn.id, n.id)]
+    wrong = [n for n in rets if n.ast.value is None or norm(n.ast.value) != content]
+    if not rets:
+        raise AnalysisError('%s: no return after replace_file' % f.site)
+    if wrong:
+        rep.fail('C19.R1', f.site, 'returned lines are the written lines', 'after replace_file(%s, ...) the function returns `%s`, not the lines that were verified and written'
+                 % (content, norm(wrong[0].ast.value) if wrong[0].ast.value is not None else 'None'), where='%s:%d' % (f.module.relpath, wrong[0].lineno))
+    else:
+        rep.ok('C19.R1', f.site, 'returned lines are the written lines', 'return %s after replace_file(%s, ...)' % (content, content), nontrivial=False)
     rep.analysed['paths'] += len(tests)
     return g
+
+
+def _enclosing_loop(node):
+    n = node.ast
+    while n is not None:
+        n = getattr(n, '_parent', None)
+        if isinstance(n, ast.For):
+            return n
+    return None
+
+
+def _hash_functions(src, f):
+    """names callable in update_file that compute the hash of a list of lines: module functions whose result (helpers inlined)
+    is <hash object>.hexdigest(), and locals of update_file that are only ever bound to such functions"""
+    from .. import normalize
+    m = f.module
+    out = set()
+    for q, fn in m.funcs.items():
+        if '.' in q:
+            continue
+        node, _ = normalize.inline_helpers(fn, depth=2)
+        rets = [r for r in ast.walk(node) if isinstance(r, ast.Return) and r.value is not None]
+        if rets and all(isinstance(r.value, ast.Call) and isinstance(r.value.func, ast.Attribute) and r.value.func.attr == 'hexdigest' for r in rets):
+            out.add(q)
+    binds = {}
+    for st in ast.walk(f.node):
+        if isinstance(st, ast.Assign):
+            for t in st.targets:
+                if isinstance(t, ast.Name):
+                    binds.setdefault(t.id, []).append(st.value)
+    for nm, vals in binds.items():
+        if vals and all(isinstance(v, ast.Name) and v.id in out for v in vals):
+            out.add(nm)
+    if not out:
+        raise AnalysisError('%s: no hash function of line lists found' % f.site)
+    return out
 
 
 def _loopvar(g, node):
@@ -254,10 +320,17 @@ def r2_single_writer(rep, src):
     gd = cfg.CFG(d.node)
     dl = _calls(gd, 'download_gunzip_lines')
     rp = _calls(gd, 'replace_file')
-    if len(dl) == 1 and len(rp) == 1 and gd.dominates(dl[0][0].id, rp[0][0].id) and [norm(a) for a in rp[0][1].args][:2] == ['lines', d.params()[1]]:
-        rep.ok('C19.R2', d.site, 'full download replaces through replace_file', 'download_gunzip_lines → replace_file(lines, local)')
+    got = None
+    if len(dl) == 1 and isinstance(dl[0][0].ast, ast.Assign) and dl[0][0].ast.value is dl[0][1] and isinstance(dl[0][0].ast.targets[0], ast.Name):
+        got = dl[0][0].ast.targets[0].id       # the downloaded lines
+    rebound = [n for n in gd.stmts() if n.kind == 'stmt' and isinstance(n.ast, (ast.Assign, ast.AugAssign)) and n is not (dl[0][0] if dl else None)
+               and any(isinstance(x, ast.Name) and x.id == got for t_ in (n.ast.targets if isinstance(n.ast, ast.Assign) else [n.ast.target]) for x in ast.walk(t_))]
+    rets_d = [n for n in gd.nodes if n.kind == 'return' and n.ast is not None]
+    if got is not None and not rebound and len(rp) == 1 and gd.dominates(dl[0][0].id, rp[0][0].id) and [norm(a) for a in rp[0][1].args][:2] == [got, d.params()[1]] \
+            and rets_d and all(n.ast.value is not None and norm(n.ast.value) == got and gd.dominates(rp[0][0].id, n.id) for n in rets_d):
+        rep.ok('C19.R2', d.site, 'full download replaces through replace_file', 'lines = download_gunzip_lines(...) → replace_file(lines, local) → return lines')
     else:
-        rep.fail('C19.R2', d.site, 'full download replaces through replace_file', 'download_file does not write the downloaded lines through replace_file', where=d.where)
+        rep.fail('C19.R2', d.site, 'full download replaces through replace_file', 'download_file does not write the downloaded lines through replace_file and return them', where=d.where)
 
 
 def _folds_to_str(mod, e):
